@@ -2,6 +2,7 @@
    All statements quantify over EVERY request reader [read_req], EVERY response writer [write_out]
    (result + bytes the socket accepted) and every connection state; sequences by induction. *)
 From SV Require Import Base.Bytes Base.IO Model.Conn Spec.ConnSpec Proofs.ConnP.
+From SV Require Import Generated.SourceParams Tie.ConnTie.
 
 Section C05.
 Variables payload resp : Type.
@@ -130,6 +131,11 @@ Example c05_nonvacuous :
    CR_Ok; CR_Err Disconnected].
 Proof. vm_compute. reflexivity. Qed.
 
+(* C05.src  the connection's head buffer length, re-read from src/http_conn.rs ON THIS RUN, is the
+   capacity the concrete instance of the connection machine uses *)
+Theorem c05_source_conn_buffer : ConnInst.cap8k = N.to_nat src_conn_buf_len.
+Proof. exact conn_buf_tie. Qed.
+
 Print Assumptions c05_misuse_unchanged.
 Print Assumptions c05_wire_effect.
 Print Assumptions c05_nothing_after_shutdown.
@@ -144,3 +150,4 @@ Print Assumptions c05_auto_continue_then_body.
 Print Assumptions c05_failed_body_read_not_head.
 Print Assumptions c05_oracle_sound.
 Print Assumptions c05_failed_body_read_head_refuted.
+Print Assumptions c05_source_conn_buffer.
